@@ -2,6 +2,7 @@ package sym
 
 import (
 	"fmt"
+	"sort"
 	"go/types"
 	"strings"
 	"sync/atomic"
@@ -17,6 +18,7 @@ func registerIntrinsics(e *Engine) {
 	registerTime(e)
 	registerOS(e)
 	registerMisc(e)
+	registerRepoStubs(e)
 	allowExecNames["(*errors.errorString).Error"] = true
 	allowExecNames["(*fmt.wrapError).Error"] = true
 	allowExecNames["(*fmt.wrapError).Unwrap"] = true
@@ -189,7 +191,14 @@ func registerHarness(e *Engine) {
 		return c.Return(nil)
 	}
 	e.Intr["harness.vfClass"] = func(c *Call) []*State {
-		c.St.Classes = append(c.St.Classes, c.constStr(0))
+		cl := c.constStr(0)
+		for _, x := range c.St.Classes {
+			if x == cl {
+				return c.Return(nil)
+			}
+		}
+		c.St.Classes = append(c.St.Classes, cl)
+		sort.Strings(c.St.Classes)
 		return c.Return(nil)
 	}
 	// vfEvent(kind string, a, b int)
